@@ -101,11 +101,53 @@ def symbol(op, roles, validated=False):
 # ('sym', s) | ('seq', [..]) | ('alt', a, b) | ('star', a) | ('eps',)
 
 
+def _zero_test(c):
+    """(symbol, zero-side-is-then) for a condition `n == 0` / `n != 0` / `0 < n` on a plain count symbol, else None"""
+    from .alg import Cond
+
+    if not isinstance(c, Cond) or c.a is None or c.b is None:
+        return None
+    a, b = sp.sympify(c.a), sp.sympify(c.b)
+    if c.op == "eq":
+        for x, y in ((a, b), (b, a)):
+            if y == 0 and x.is_Symbol:
+                return x, not c.neg
+    if c.op == "lt" and a == 0 and b.is_Symbol:  # 0 < n
+        return b, c.neg
+    return None
+
+
 def to_regex(items, roles, tr_filter, collect=None):
     """structured trace -> regex over the ops of transcripts accepted by tr_filter(tr)"""
     seq = []
-    for it in items:
+    items = list(items)
+    for pos, it in enumerate(items):
         k = it[0]
+        if k == "alt" and isinstance(it[1], Cond):
+            # two branches on the same condition are taken the same way (a branch split over a helper and its caller)
+            base = it[1].key().lstrip("!")
+            rest = items[pos + 1:]
+            q = next((i_ for i_, r in enumerate(rest) if r[0] == "alt" and isinstance(r[1], Cond) and r[1].key().lstrip("!") == base), None)
+            if q is not None:
+                second = rest[q]
+                same = second[1].neg == it[1].neg
+                then2, else2 = (second[2], second[3]) if same else (second[3], second[2])
+                a = to_regex(list(it[2]) + rest[:q] + list(then2) + rest[q + 1:], roles, tr_filter, collect)
+                b = to_regex(list(it[3]) + rest[:q] + list(else2) + rest[q + 1:], roles, tr_filter, collect)
+                seq.append(a if a == b else ("alt", a, b))
+                break
+        if k == "alt" and _zero_test(it[1]) is not None:
+            # path sensitivity for `if n == 0 { A } else { B }` followed by a loop over n iterations: on the n == 0 side the
+            # loop does not run (a branch extracted into a helper must not read as "A, then user callbacks")
+            n_, zero_is_then = _zero_test(it[1])
+            rest = items[pos + 1:]
+            is_loop = lambda r: r[0] == "star" and isinstance(r[2], dict) and r[2].get("n") is not None and sp.expand(sp.sympify(r[2]["n"]) - n_) == 0
+            if any(is_loop(r) for r in rest):
+                zero_side, other_side = (it[2], it[3]) if zero_is_then else (it[3], it[2])
+                a = to_regex(list(zero_side) + [r for r in rest if not is_loop(r)], roles, tr_filter, collect)
+                b = to_regex(list(other_side) + rest, roles, tr_filter, collect)
+                seq.append(a if a == b else ("alt", a, b))
+                break
         if k == "op":
             d = it[1]
             if tr_filter(d["tr"]):
